@@ -4,6 +4,7 @@ import itertools
 
 import canon_common as cc
 import lib
+import punylaws
 import urlgen
 import urlrt
 
@@ -13,6 +14,11 @@ THEOREMS = [
     "Ural.Props.C01.canon_scheme",
     "Ural.Props.C01.canon_userinfo",
     "Ural.Props.C01.canon_host",
+    "Ural.Props.C01.canon_host_name",
+    "Ural.Props.C01.canon_host_key",
+    "Ural.Props.C01.canonicalize_same_host_name",
+    "Ural.Canonicalize.hostKey_canonHost",
+    "Ural.Canonicalize.idnaLaws_id",
     "Ural.Props.C01.canon_port",
     "Ural.Props.C01.canon_query",
     "Ural.Props.C01.canon_fragment",
@@ -129,10 +135,27 @@ CORPUS = [
 ]
 
 
+ACE_SHAPES = ["http://%s/", "https://u:p@%s:8080/p?q#f", "%s/p", "//%s", "HTTP://%s:80?q"]
+ACE_ALL_OPTS = ("ascii-payload", "raw-payload", "double", "long", "char:idna-dot")
+
+
+def ace_cases(tier):
+    for k, (host, name, i) in enumerate(punylaws.class_hosts(tier)):
+        url = ACE_SHAPES[k % len(ACE_SHAPES)] % host
+        for q, sf in (OPTS if name.replace("case:", "") in ACE_ALL_OPTS else [OPTS[k % 4]]):
+            c = _mk({"raw": url}, q, sf)
+            c["ace"] = name
+            yield c
+
+
 def cases(rng, tier):
     for u in CORPUS:
         for q, sf in OPTS:
             yield _mk({"raw": u}, q, sf)
+    # the enumerated class of ACE labels (harness/punylaws.py) inside hosts: the laws the host
+    # theorems assume of the real decoder are evaluated on every one of them by the oracle
+    for c in ace_cases(tier):
+        yield c
     for p in urlgen.structure_sweep():
         for q, sf in OPTS:
             yield _mk(p, q, sf)
@@ -174,10 +197,9 @@ def oracle(case):
         return "cleaning raised %s: %s" % (type(e).__name__, e)
     if cc.parse(cleaned) is None:
         return None  # does not parse: outside the property
-    # the hypotheses the theorems make on attempt_to_decode_idna, on the real codec
-    bad = urlrt.puny_laws_failure(urlrt.puny_of(cleaned))
-    if bad:
-        return bad
+    # the hypotheses the theorems make of the label decoder (PunyLaws, PunyClean, IdnaLaws), on the
+    # real decode_punycode_hostname, for every xn-- label of this host
+    lawbad = urlrt.puny_laws_failure(urlrt.puny_of(cleaned))
     try:
         out = canonicalize_url(url, default_protocol=case["dp"], quoted=case["quoted"], strip_fragment=case["strip_fragment"])
     except Exception as e:  # noqa
@@ -190,9 +212,13 @@ def oracle(case):
     try:
         v_out = cc.view(out, case["strip_fragment"])
     except ValueError as e:
-        return "canonicalize_url(%r) = %r no longer parses: %s" % (url, out, e)
+        return "canonicalize_url(%r) = %r no longer parses: %s%s" % (url, out, e, " [%s]" % lawbad if lawbad else "")
     v_in = cc.view(cleaned, case["strip_fragment"])
-    for k in v_in:
+    # every clause but the host first, then the decoder's laws (the cause of a host that changed),
+    # then the host clause itself: same ASCII-compatible spelling, label by label
+    for k in [k for k in v_in if k != "host"] + ["host"]:
+        if k == "host" and lawbad:
+            return "%s; canonicalize_url(%r) = %r" % (lawbad, url, out)
         if v_in[k] != v_out[k]:
             return "canonicalize_url(%r, quoted=%s, strip_fragment=%s) = %r: %s was %r, is %r" % (
                 url, case["quoted"], case["strip_fragment"], out, k, v_in[k], v_out[k])
@@ -205,6 +231,59 @@ def oracle(case):
         if not rest.isascii():
             return "canonicalize_url(%r, quoted=True) = %r is not quoted" % (url, out)
     return None
+
+
+def kf_idna_ideographic_full_stop(case, failure):
+    """KF-C01-3: the only law failures of the case are IdnaLaws.same_name on labels that CPython's
+    own idna codec (not ural) decodes - its round-trip check passes - to the very text ural
+    returns, and that text holds U+3002 IDEOGRAPHIC FULL STOP, which IDNA reads as a label
+    separator ('xn--ab-r13a' -> 'a。b': the canonical host has one label more)"""
+    if not failure.startswith("IdnaLaws.same_name fails"):
+        return False
+    tab = urlrt.puny_of(cc.clean_impl(_url(case), case["dp"]))
+    n = 0
+    for x, d in tab.items():
+        for f in punylaws.label_failures(x, d):
+            if f[:2] != ("IdnaLaws", "same_name"):
+                return False
+            try:
+                ref = x.encode("ascii").decode("idna")
+            except UnicodeError:
+                return False
+            if ref != d or punylaws.IDEOGRAPHIC_FULL_STOP not in d:
+                return False
+            n += 1
+    return n > 0
+
+
+def kf_idna_late_delimiter_lookalike(case, failure):
+    """KF-C01-4: the output is refused by urlsplit's NFKC check (and by nothing else: no law of the
+    decoder fails) because a label of the host is an ACE label that CPython's own idna codec
+    decodes to the very text ural returns, and that text holds a character that Unicode 3.2 (the
+    codec's database) does not know and whose compatibility form in today's Unicode holds one of
+    '/?#@:' (U+FE13 -> ':', U+FE16 -> '?')"""
+    import unicodedata
+
+    if "no longer parses" not in failure or "under NFKC normalization" not in failure or failure.endswith("]"):
+        return False
+    tab = urlrt.puny_of(cc.clean_impl(_url(case), case["dp"]))
+    if punylaws.failures(tab):
+        return False
+    n = 0
+    for x, d in tab.items():
+        try:
+            ref = x.encode("ascii").decode("idna")
+        except UnicodeError:
+            ref = x
+        if ref != d:
+            return False
+        for c in d:
+            now = unicodedata.normalize("NFKC", c)
+            if now != c and any(k in now for k in "/?#@:"):
+                if unicodedata.ucd_3_2_0.category(c) != "Cn":
+                    return False
+                n += 1
+    return n > 0
 
 
 def nontrivial(case):
@@ -225,7 +304,9 @@ def classify(case):
         labs.append("non-ascii")
     if "/." in url:
         labs.append("dot-segment")
-    if "raw" in case["parts"]:
+    if case.get("ace"):
+        labs.append("ace-label:" + case["ace"].replace("case:", ""))
+    elif "raw" in case["parts"]:
         labs.append("raw-string")
     w = urlrt.outside_model(url)
     if w:
